@@ -18,6 +18,9 @@
 (*   "P3" authentication in progress               (encrypted)             *)
 (*   "P4" authenticated, no key exchange running                           *)
 (*   "P5" authenticated, key re-exchange running                           *)
+(*   "P1w" / "P5w" first exchange / re-exchange: the endpoint has sent its   *)
+(*        own NEWKEYS (its key exchange object is gone) and waits for the   *)
+(*        peer's NEWKEYS; receive keys are still the old ones               *)
 (*   "P4n" authenticated, right after the NEWKEYS of a re-exchange (the    *)
 (*        code re-opens the EXT_INFO window at every NEWKEYS, RFC 8308     *)
 (*        allows it after the first one only; accepted without effect)     *)
@@ -28,7 +31,7 @@ CONSTANTS AuthGate,     \* TRUE: messages above 79 are refused before authentica
           RoleCheck     \* TRUE: handlers check the role of the receiver (as coded)
 
 Roles == {"client", "server"}
-Phases == {"P0", "P1", "P2", "P3", "P4", "P5", "P4n"}
+Phases == {"P0", "P1", "P2", "P3", "P4", "P5", "P4n", "P1w", "P5w"}
 Classes == {"DISCONNECT", "IGNORE", "UNIMPLEMENTED", "DEBUG", "SERVICE_REQUEST",
             "SERVICE_ACCEPT", "EXT_INFO", "KEXINIT", "NEWKEYS", "KEXMSG", "KEXOTHER",
             "USERAUTH_REQUEST", "USERAUTH_FAILURE", "USERAUTH_SUCCESS", "USERAUTH_BANNER",
@@ -37,9 +40,9 @@ Classes == {"DISCONNECT", "IGNORE", "UNIMPLEMENTED", "DEBUG", "SERVICE_REQUEST",
 \* KEXMSG = a 30..49 type the running exchange handles at this point; KEXOTHER = one it does not.
 \* UNKNOWN_LOW = unassigned type <= 49, UNKNOWN_MID = unassigned 54..59, UNKNOWN_HIGH = unassigned > 79
 
-Encrypted(ph) == ph \notin {"P0", "P1"}
+Encrypted(ph) == ph \notin {"P0", "P1", "P1w"}
 KexRunning(ph) == ph \in {"P1", "P5"}
-AuthComplete(ph) == ph \in {"P4", "P5", "P4n"}
+AuthComplete(ph) == ph \in {"P4", "P5", "P4n", "P5w"}
 Above49(c) == c \in {"USERAUTH_REQUEST", "USERAUTH_FAILURE", "USERAUTH_SUCCESS",
                      "USERAUTH_BANNER", "AUTH60", "GLOBAL_REQUEST", "REQUEST_REPLY",
                      "CHANNEL_OPEN", "CHANNEL_REPLY", "CHANNEL_MSG", "UNKNOWN_MID",
@@ -56,7 +59,8 @@ Outcome(role, ph, c, strict) ==
     IF c \in {"KEXMSG", "KEXOTHER"} THEN
         IF KexRunning(ph)
         THEN IF c = "KEXMSG" THEN "process" ELSE Unhandled(ph, strict)
-        ELSE "fatal"                                  \* "Key exchange not in progress"
+        ELSE "fatal"                                  \* "Key exchange not in progress" (also P1w / P5w:
+                                                      \* a repeated INIT / REPLY must not run the exchange again)
     ELSE IF strict /\ ~Encrypted(ph) /\ c \in {"IGNORE", "UNIMPLEMENTED", "DEBUG"} THEN "fatal"
     ELSE IF c = "AUTH60" THEN
         IF ph = "P3" THEN "process" ELSE "fatal"      \* "Authentication not in progress"
@@ -74,10 +78,13 @@ Outcome(role, ph, c, strict) ==
         IF ph \in {"P2", "P4n"} THEN "process" ELSE "fatal"  \* only right after a NEWKEYS
     ELSE IF c = "KEXINIT" THEN
         IF KexRunning(ph) THEN "fatal"                \* "already in progress"
+        ELSE IF ph \in {"P1w", "P5w"} THEN "process"  \* as coded: with its own NEWKEYS sent the endpoint is "not
+                                                      \* doing key exchange" and answers a KEXINIT by starting another one
         ELSE IF ph \in {"P0", "P4", "P4n"} THEN "process"
         ELSE "process"                                \* a re-exchange may start at any encrypted phase
     ELSE IF c = "NEWKEYS" THEN
-        IF KexRunning(ph) THEN "process" ELSE "fatal" \* "New keys not negotiated" (needs staged keys)
+        IF KexRunning(ph) \/ ph \in {"P1w", "P5w"} THEN "process"
+        ELSE "fatal"                                  \* "New keys not negotiated" (needs staged keys)
     ELSE IF c = "USERAUTH_REQUEST" THEN
         IF RoleCheck /\ role = "client" THEN "fatal"
         ELSE IF ph = "P3" \/ ph = "P2" THEN "process"
@@ -104,6 +111,9 @@ Expected(role, ph) ==
       [] ph = "P4" -> {"KEXINIT", "DISCONNECT", "GLOBAL_REQUEST", "REQUEST_REPLY", "CHANNEL_OPEN",
                        "CHANNEL_REPLY", "CHANNEL_MSG"} \cup
                       (IF role = "server" THEN {"USERAUTH_REQUEST"} ELSE {})
+      [] ph = "P1w" -> {"NEWKEYS", "KEXINIT"}
+      [] ph = "P5w" -> {"NEWKEYS", "KEXINIT", "DISCONNECT", "GLOBAL_REQUEST", "REQUEST_REPLY", "CHANNEL_OPEN",
+                        "CHANNEL_REPLY", "CHANNEL_MSG"}
       [] ph = "P4n" -> {"KEXINIT", "DISCONNECT", "GLOBAL_REQUEST", "REQUEST_REPLY", "CHANNEL_OPEN",
                         "CHANNEL_REPLY", "CHANNEL_MSG", "EXT_INFO"} \cup
                        (IF role = "server" THEN {"USERAUTH_REQUEST"} ELSE {})
